@@ -310,6 +310,7 @@ def main():
     try:
         funcs = mir.parse_mir(open(a.mir).read())
         ctx = Ctx(funcs, Native(a.native), a.seed)
+        ctx.hname = a.harness
         fn = HARNESSES[a.harness]
         fn(ctx)
         st = ctx.stats
@@ -333,8 +334,13 @@ def main():
             rp = REPLAYERS[a.harness.split("_")[0]]
             reproduced = False
             whys = []
+            incrate = None
             for fl in res["failed"]:
-                ok, why = rp(ctx, fl)
+                out = rp(ctx, fl)
+                ok, why = out[0], out[1]
+                if len(out) > 2 and out[2] and incrate is None:
+                    # the witness concerns crate-private code: a unit test for the driver to run inside the crate (cargo kani playback)
+                    incrate = out[2]
                 fl["reproduced"] = ok
                 fl["native"] = why
                 whys.append(why)
@@ -345,6 +351,8 @@ def main():
                 path = os.path.join(a.replay_dir, a.harness + ".json")
                 json.dump({"engine": "mirsmt", "harness": a.harness, "witnesses": res["failed"]}, open(path, "w"), indent=1)
             res["replay"] = {"reproduced": reproduced, "why": "; ".join(whys), "path": path}
+            if incrate and not reproduced:
+                res["replay"]["incrate"] = incrate
     except Unsupported as e:
         res["verdict"] = "UNSUPPORTED"
         res["error"] = str(e)
